@@ -265,6 +265,8 @@ def correspond(ctx):
     co = Corr(PROP, DRIVER)
     rng = ctx.np
     hists = gen_exhaustive(ctx.n(1, 2), STARTS[:ctx.n(2, 3)])
+    if ctx.thorough:
+        hists += gen_exhaustive(3, STARTS[:1])        # every history of length <= 3 from one two-layer snowpack
     hists += gen_random(rng, ctx.n(150, 1500), 4, ctx.n(10, 30))
     for ops in hists:
         out, ex = run_history(ops, rng)
